@@ -38,6 +38,10 @@ use rarena_allocator::{
   Owned, RefMut,
 };
 
+/// Controlled scheduler (`sched` binary, PROTOCOL_SCHED.md); a child module so that it can re-use
+/// the private executor.
+pub mod sched;
+
 /// PROTOCOL.md is ambiguous about whether `r=panic` of a buffer operation (only `set_len` above
 /// capacity is expected to panic) carries `len=`. "Every answer carries len=" is taken literally.
 pub const PANIC_CARRIES_LEN: bool = true;
@@ -1158,6 +1162,24 @@ impl<A: Flavour> Case<A> {
         unsafe { a.reserved_slice_mut() }.fill(b);
         "r=ok".to_string()
       }
+      // ---- file operations that need an arena (PROTOCOL_FILE.md) -------------------------
+      "flush" => {
+        argc(1)?;
+        match a.flush() {
+          Ok(()) => "r=ok".to_string(),
+          Err(e) => format!("r={}", io_name(&e)),
+        }
+      }
+      "remove_on_drop" => {
+        argc(2)?;
+        let b = match t[1] {
+          "0" => false,
+          "1" => true,
+          _ => return None,
+        };
+        a.remove_on_drop(b);
+        "r=ok".to_string()
+      }
       // ---- buffer operations -----------------------------------------------------------
       "put" | "get" | "put_var" | "get_var" | "put_slice" | "set_len" | "align_to"
       | "put_aligned" | "putT" => {
@@ -1398,4 +1420,362 @@ pub fn open_case(
 /// The value of `key` (e.g. `"boff="`) in an observation line.
 pub fn field<'a>(ans: &'a str, key: &str) -> Option<&'a str> {
   ans.split(' ').find_map(|tok| tok.strip_prefix(key))
+}
+
+// ---------------------------------------------------------------------------------------------
+// File sessions (PROTOCOL_FILE.md): a case that can be closed and reopened
+// ---------------------------------------------------------------------------------------------
+//
+// Readings chosen where PROTOCOL_FILE.md leaves room:
+// * the session-level lines (`close`, `reopen`, `mutate_file`, `truncate_file`, `random_file`,
+//   `delete_file`, `filehash`) are `bad-op` in a case whose backend is not `file`; `flush` and
+//   `remove_on_drop` are ordinary arena operations and work with every backend;
+// * `mutate_file` / `truncate_file` / `random_file` / `delete_file` while the case is open are
+//   `bad-op` (like `reopen`); `close` while closed is `r=closed`;
+// * while closed a line whose first token is a known operation is `r=closed`, anything else `bad-op`;
+// * wherever `fh= flen=` is printed and the file does not exist: `fh=none flen=none` (e.g. `close`
+//   after `remove_on_drop 1`); `mutate_file` of a missing file is `bad-op` (no length);
+// * an I/O error of `truncate_file` / `random_file` / `delete_file` is `r=io:<Kind>` (+ `fh= flen=`
+//   where the `r=ok` answer has them); a panic inside an open is `r=panic fh= flen=`;
+// * `truncate_file N` / `random_file SEED N` with `N >` [`MAX_FILE`] are `bad-op`;
+// * `ro=` is printed as 0/1 (as in `info`);
+// * the `--flavour` override of `seq run` also overrides `flavour=` of every `reopen`;
+// * `cap=same` is the `cap` of the `cfg` line, whatever happened to the file since.
+
+/// Largest file `truncate_file` / `random_file` will produce.
+pub const MAX_FILE: u64 = 1 << 26;
+
+/// Overrides applied to every `cfg` line (`sync` also to every `reopen`).
+#[derive(Clone, Copy, Debug, Default)]
+pub struct Overrides {
+  pub sync: Option<bool>,
+  /// 0 vec, 1 anon, 2 file
+  pub backend: Option<u8>,
+  pub unify: Option<bool>,
+}
+
+/// `fh=<FNV-1a 64 of the raw file bytes> flen=<length>`; `fh=none flen=none` without a file.
+pub fn file_sig(p: &Path) -> String {
+  match std::fs::read(p) {
+    Ok(b) => format!("fh={:016x} flen={}", fnv1a(FNV_OFFSET, &b), b.len()),
+    Err(_) => "fh=none flen=none".to_string(),
+  }
+}
+
+#[derive(Clone, Copy, PartialEq, Eq, Debug)]
+enum MapMode {
+  Mut,
+  Copy,
+  Ro,
+  CopyRo,
+}
+
+/// A parsed `reopen` line.
+#[derive(Clone, Debug)]
+struct Reopen {
+  mode: MapMode,
+  /// `None` = `cap=none`
+  cap: Option<u32>,
+  magic: u16,
+  freelist: u8,
+  create: bool,
+  sync: bool,
+  reserved: u32,
+  minseg: u32,
+}
+
+impl Reopen {
+  /// `same_cap`: what `cap=same` stands for
+  fn parse(t: &[&str], same_cap: u32) -> Option<Reopen> {
+    if t.len() != 9 || t[0] != "reopen" {
+      return None;
+    }
+    let val = |i: usize, key: &str| -> Option<&str> { t[i].strip_prefix(key)?.strip_prefix('=') };
+    Some(Reopen {
+      mode: match t[1] {
+        "mut" => MapMode::Mut,
+        "copy" => MapMode::Copy,
+        "ro" => MapMode::Ro,
+        "copy_ro" => MapMode::CopyRo,
+        _ => return None,
+      },
+      cap: match val(2, "cap")? {
+        "same" => Some(same_cap),
+        "none" => None,
+        n => Some(n.parse().ok()?),
+      },
+      magic: val(3, "magic")?.parse().ok()?,
+      freelist: FREELISTS.iter().position(|x| *x == val(4, "freelist").unwrap_or(""))? as u8,
+      create: match val(5, "create")? {
+        "0" => false,
+        "1" => true,
+        _ => return None,
+      },
+      sync: match val(6, "flavour")? {
+        "sync" => true,
+        "unsync" => false,
+        _ => return None,
+      },
+      reserved: val(7, "reserved")?.parse().ok()?,
+      minseg: val(8, "minseg")?.parse().ok()?,
+    })
+  }
+}
+
+/// What a [`Session`] needs from its running case beyond [`CaseApi`].
+trait CaseInner: CaseApi {
+  /// the session takes over the backing file (the case no longer removes it when dropped)
+  fn disown_file(&mut self) -> Option<PathBuf>;
+  /// `doff= ro= fk= mv=` and `<STATE>` of a reopened arena; `None` = they cannot be observed
+  /// (the case is dead from then on)
+  fn reopen_obs(&mut self) -> Option<(String, String)>;
+}
+
+impl<A: Flavour> CaseInner for Case<A> {
+  fn disown_file(&mut self) -> Option<PathBuf> {
+    self.file.take()
+  }
+
+  fn reopen_obs(&mut self) -> Option<(String, String)> {
+    let r = catch_unwind(AssertUnwindSafe(|| {
+      let a = self.cur();
+      let fk = match a.memory().get(a.reserved_bytes() + 1) {
+        Some(0) => "none",
+        Some(1) => "opt",
+        Some(2) => "pess",
+        _ => "?",
+      };
+      let head =
+        format!("doff={} ro={} fk={} mv={}", a.data_offset(), a.read_only() as u8, fk, a.magic_version());
+      (head, self.state())
+    }));
+    if r.is_err() {
+      self.dead = true;
+    }
+    r.ok()
+  }
+}
+
+impl<A: Flavour> Case<A> {
+  /// Opens the existing file of a closed case as PROTOCOL_FILE.md prescribes. The file stays the
+  /// property of the session. `Err` = result kind (`io:<Kind>` or `panic`).
+  fn reopen(cfg: &Cfg, r: &Reopen, path: &Path) -> Result<Self, String> {
+    let built = catch_unwind(AssertUnwindSafe(|| -> std::io::Result<A> {
+      let mut o = Options::new()
+        .with_reserved(r.reserved)
+        .with_magic_version(r.magic)
+        .with_freelist(match r.freelist {
+          0 => Freelist::None,
+          1 => Freelist::Optimistic,
+          _ => Freelist::Pessimistic,
+        })
+        .with_minimum_segment_size(r.minseg)
+        .with_maximum_alignment(cfg.maxalign)
+        .with_maximum_retries(cfg.retries)
+        .with_read(true)
+        .with_write(true);
+      if r.create {
+        o = o.with_create(true);
+      }
+      if let Some(c) = r.cap {
+        o = o.with_capacity(c);
+      }
+      unsafe {
+        match r.mode {
+          MapMode::Mut => o.map_mut::<A, _>(path),
+          MapMode::Copy => o.map_copy::<A, _>(path),
+          MapMode::Ro => o.map::<A, _>(path),
+          MapMode::CopyRo => o.map_copy_read_only::<A, _>(path),
+        }
+      }
+    }));
+    match built {
+      Err(_) => Err("panic".to_string()),
+      Ok(Err(e)) => Err(io_name(&e)),
+      Ok(Ok(arena)) => {
+        let mut arenas = BTreeMap::new();
+        arenas.insert(0, Box::into_raw(Box::new(arena)));
+        Ok(Case { arenas, graveyard: Vec::new(), handles: HashMap::new(), dead: false, file: None })
+      }
+    }
+  }
+}
+
+/// First tokens of the lines that need an arena (answered `r=closed` while the case is closed).
+const ARENA_OPS: [&str; 38] = [
+  "alloc_bytes", "alloc_bytes_owned", "alloc_aligned", "alloc_aligned_owned", "alloc_t", "alloc_t_owned",
+  "alloc_d", "alloc_d_owned", "fill", "drop", "detach", "dealloc", "discard_freelist", "set_minseg",
+  "inc_discarded", "rewind", "clear", "truncate", "clone", "drop_arena", "rd", "rd_var", "slices",
+  "checksum", "info", "wres", "put", "get", "put_var", "get_var", "put_slice", "set_len", "align_to",
+  "put_aligned", "putT", "flush", "remove_on_drop", "close",
+];
+
+/// A case plus what outlives its arena: the configuration and the backing file. The running case
+/// is `None` between `close` and the next successful `reopen`.
+pub struct Session {
+  cfg: Cfg,
+  force_sync: Option<bool>,
+  /// the backing file (`backend=file` only); removed when the session ends
+  file: Option<PathBuf>,
+  case: Option<Box<dyn CaseInner>>,
+}
+
+impl Session {
+  /// The session-level lines; `None` = `bad-op`.
+  fn file_op(&mut self, t: &[&str]) -> Option<String> {
+    let path = self.file.clone()?; // not a file-backed case: nothing here is meaningful
+    let argc = |n: usize| (t.len() == n).then_some(());
+    let closed = self.case.is_none();
+    let sig = || file_sig(&path);
+    let io = |r: std::io::Result<()>| match r {
+      Ok(()) => format!("r=ok {}", file_sig(&path)),
+      Err(e) => format!("r={} {}", io_name(&e), file_sig(&path)),
+    };
+    Some(match t[0] {
+      "filehash" => {
+        argc(1)?;
+        format!("r=ok {}", sig())
+      }
+      "close" => {
+        argc(1)?;
+        if closed {
+          return Some("r=closed".to_string());
+        }
+        // `Drop for Case`: detach + drop every handle, then drop every arena value
+        self.case = None;
+        format!("r=ok {}", sig())
+      }
+      "reopen" => {
+        if !closed {
+          return None;
+        }
+        let mut r = Reopen::parse(t, self.cfg.cap)?;
+        if let Some(s) = self.force_sync {
+          r.sync = s;
+        }
+        let built: Result<Box<dyn CaseInner>, String> = if r.sync {
+          Case::<sync::Arena>::reopen(&self.cfg, &r, &path).map(|c| Box::new(c) as Box<dyn CaseInner>)
+        } else {
+          Case::<unsync::Arena>::reopen(&self.cfg, &r, &path).map(|c| Box::new(c) as Box<dyn CaseInner>)
+        };
+        match built {
+          Err(kind) => format!("r={kind} {}", sig()),
+          Ok(mut c) => {
+            let obs = c.reopen_obs();
+            self.case = Some(c);
+            match obs {
+              Some((head, state)) => format!("r=ok {head} {} {state}", sig()),
+              None => "r=panic".to_string(),
+            }
+          }
+        }
+      }
+      "mutate_file" => {
+        argc(3)?;
+        let (i, v): (usize, u8) = (parse(t[1])?, parse(t[2])?);
+        if !closed {
+          return None;
+        }
+        let mut b = std::fs::read(&path).ok()?;
+        *b.get_mut(i)? = v;
+        io(std::fs::write(&path, &b))
+      }
+      "truncate_file" => {
+        argc(2)?;
+        let n: u64 = parse(t[1])?;
+        if !closed || n > MAX_FILE {
+          return None;
+        }
+        io(std::fs::OpenOptions::new().write(true).open(&path).and_then(|f| f.set_len(n)))
+      }
+      "random_file" => {
+        argc(3)?;
+        let (seed, n): (u64, u64) = (parse(t[1])?, parse(t[2])?);
+        if !closed || n > MAX_FILE {
+          return None;
+        }
+        let mut g = SplitMix64(seed);
+        let b: Vec<u8> = (0..n).map(|_| g.next_u64() as u8).collect();
+        io(std::fs::write(&path, &b))
+      }
+      "delete_file" => {
+        argc(1)?;
+        if !closed {
+          return None;
+        }
+        match std::fs::remove_file(&path) {
+          Ok(()) => "r=ok".to_string(),
+          Err(e) => format!("r={}", io_name(&e)),
+        }
+      }
+      _ => return None,
+    })
+  }
+}
+
+impl CaseApi for Session {
+  fn exec(&mut self, line: &str) -> String {
+    let t: Vec<&str> = line.split(' ').collect();
+    match t[0] {
+      "close" | "reopen" | "mutate_file" | "truncate_file" | "random_file" | "delete_file" | "filehash" => {
+        self.file_op(&t).unwrap_or_else(|| "bad-op".to_string())
+      }
+      op => match &mut self.case {
+        Some(c) => c.exec(line),
+        None if ARENA_OPS.contains(&op) => "r=closed".to_string(),
+        None => "bad-op".to_string(),
+      },
+    }
+  }
+
+  fn live(&self) -> Vec<HandleInfo> {
+    self.case.as_ref().map(|c| c.live()).unwrap_or_default()
+  }
+
+  fn arena(&self) -> ArenaInfo {
+    self.case.as_ref().map(|c| c.arena()).unwrap_or_default()
+  }
+}
+
+impl Drop for Session {
+  fn drop(&mut self) {
+    self.case = None; // unmap first
+    if let Some(f) = &self.file {
+      let _ = std::fs::remove_file(f);
+    }
+  }
+}
+
+/// Like [`open_case`], with the file operations of PROTOCOL_FILE.md: starts the case described by
+/// `cfg_line` (after applying `ov`). Lines of PROTOCOL.md are answered exactly as by [`open_case`].
+pub fn open_session(
+  cfg_line: &str,
+  ov: &Overrides,
+  tmp: &Path,
+  case_no: u64,
+) -> (Option<Box<dyn CaseApi>>, String) {
+  let Some(mut cfg) = Cfg::parse(cfg_line) else {
+    return (None, "bad-op".to_string());
+  };
+  if let Some(s) = ov.sync {
+    cfg.sync = s;
+  }
+  if let Some(b) = ov.backend {
+    cfg.backend = b;
+  }
+  if let Some(u) = ov.unify {
+    cfg.unify = u;
+  }
+  let (case, ans): (Option<Box<dyn CaseInner>>, String) = if cfg.sync {
+    let (c, ans) = Case::<sync::Arena>::open(&cfg, tmp, case_no);
+    (c.map(|c| Box::new(c) as Box<dyn CaseInner>), ans)
+  } else {
+    let (c, ans) = Case::<unsync::Arena>::open(&cfg, tmp, case_no);
+    (c.map(|c| Box::new(c) as Box<dyn CaseInner>), ans)
+  };
+  let session = case.map(|mut c| {
+    let file = c.disown_file();
+    Box::new(Session { cfg, force_sync: ov.sync, file, case: Some(c) }) as Box<dyn CaseApi>
+  });
+  (session, ans)
 }
